@@ -162,6 +162,9 @@ def _gen_c14(rng, max_stages):
     n = rng.randint(1, max_stages)
     docs = [_strip_below_lists(g.doc()) for _ in range(n)]
     docs[0] = _strip_clear(docs[0])
+    for j in range(1, n):
+        if rng.random() < 0.12 and docs[j]["form"] == "none":
+            docs[j] = S.with_tag(docs[j], "del")       # a document that throws the previous tree away (root mapping tagged !del)
     # sometimes wrap a subtree's arguments in a recording call
     if rng.random() < 0.4 and docs[0]["ch"]:
         k, c = docs[0]["ch"][0]
@@ -335,8 +338,8 @@ BUILDER = {
     "C08": {
         "invariants": ["Inv_C08"],
         "driver": "cmdline",
-        "exh": {"quick": [("C08_Docs", 2, 2, "C08_Range"), ("C08_DocsFirst", 1, 1), ("C08_DocsD", 2, 2, "C08_RangeD")],
-                "thorough": [("C08_Docs", 2, 2, "C08_Range"), ("C08_DocsFirst", 1, 1), ("C08_DocsD", 2, 2, "C08_RangeD"),
+        "exh": {"quick": [("C08_Docs", 2, 2, "C08_Range"), ("C08_DocsFirst", 1, 1), ("C08_DocsD", 2, 2, "C08_RangeD"), ("C08_DocsF", 2, 2, "C08_RangeF")],
+                "thorough": [("C08_Docs", 2, 2, "C08_Range"), ("C08_DocsFirst", 1, 1), ("C08_DocsD", 2, 2, "C08_RangeD"), ("C08_DocsF", 2, 2, "C08_RangeF"),
                              ("C08_Docs3", 3, 3, "C08_Range3")]},
         "mutations": [{"mutation": "NotNewShallow", "docs": "C08_Docs", "range": "C08_Range", "stages": (2, 2), "expect": ["Inv_C08"]},
                       {"mutation": "NotNewSkipsFirst", "docs": "C08_DocsFirst", "stages": (1, 1), "expect": ["Inv_C08"]}],
@@ -563,7 +566,8 @@ EVAL = {
         "mutations": [{"switch": "DefaultSafeOverwrite", "docs": "C07_Docs", "range": "C07_Range", "stages": (2, 2), "expect": ["Inv_C07_Trees", "Inv_C07_Eval"]},
                       {"mutation": "NoArgGate", "docs": "C07_Docs", "range": "C07_Range", "stages": (1, 1), "expect": ["Inv_C07_Eval"]},
                       {"mutation": "NoFnGate", "docs": "C07_Docs", "range": "C07_Range", "stages": (2, 2), "expect": ["Inv_C07_Eval"]},
-                      {"mutation": "NoTaint", "docs": "C07_Docs", "range": "C07_Range", "stages": (1, 1), "expect": ["Inv_C07_Eval"]}],
+                      {"mutation": "NoTaint", "docs": "C07_Docs", "range": "C07_Range", "stages": (1, 1), "expect": ["Inv_C07_Eval"]},
+                      {"mutation": "MergeLaundersUnsafe", "docs": "C07_Docs", "range": "C07_Range", "stages": (2, 2), "expect": ["Inv_C07_Trees"]}],
         "gen": _gen_c07, "random": {"quick": 1500, "thorough": 25000}, "max_stages": 3,
         "nontrivial": _c07_nontrivial,
         "rule": "A: first documents with a !call / !bind / !import / placeholder at f (argument static, cross-referenced, a nested call; "
